@@ -6,3 +6,10 @@ import ZbossModel.Props.C01
 #print axioms Zboss.Rx.C01_any_two_chunkings
 #print axioms Zboss.Rx.C01_prefix
 #print axioms Zboss.Rx.C01_pending
+#print axioms Zboss.Rx.C01_sound
+#print axioms Zboss.Rx.C01_accepted_is_wellformed
+#print axioms Zboss.Rx.hasFlag_or
+#print axioms Zboss.Rx.C01_accepted_body_crc
+#print axioms Zboss.Rx.C01_complete
+#print axioms Zboss.Rx.mem_delivered
+#print axioms Zboss.Rx.C01_complete_prompt
